@@ -529,11 +529,11 @@ Proof.
     bindB by (evB) as [v1 s3] Hq3. unfold Qe in Hq3; cbn [snd] in Hq3.
     destruct v0; try leafB; destruct v1; try leafB. apply sat_OkM. exact Hq3. }
   destruct (bytes_eqb f n_to_uppercase) eqn:E3.
-  { destruct (is_ascii str); [apply sat_OkM; exact Hi|leafB]. }
+  { apply sat_OkM; exact Hi. }
   destruct (bytes_eqb f n_to_lowercase) eqn:E4.
-  { destruct (is_ascii str); [apply sat_OkM; exact Hi|leafB]. }
+  { apply sat_OkM; exact Hi. }
   destruct (bytes_eqb f n_trim) eqn:E5; [apply sat_OkM; exact Hi|].
-  destruct (bytes_eqb f n_to_number) eqn:E6; [leafB|].
+  destruct (bytes_eqb f n_to_number) eqn:E6; [apply sat_OkM; exact Hi|].
   destruct (bytes_eqb f n_find) eqn:E7.
   { match goal with H : need f n_find _ _ = true |- _ => pose proof (need_true _ _ _ _ H E7) as Hl end.
     destruct args as [|a0 rest]; cbn [length] in Hl; try lia.
